@@ -5,7 +5,7 @@ import subprocess
 
 ROOT = os.path.dirname(os.path.dirname(os.path.abspath(__file__)))
 
-SCHED_NOTE = ("MPBCore.tla part (where the property has one, DESIGN.md section 4): exhaustive TLC on 1-3 small configurations, its behaviours replayed gate by gate, "
+SCHED_NOTE = ("A hang or leak counts as a recorded finding only if MPBCore.tla reproduces the execution's gate trace. MPBCore.tla part (where the property has one, DESIGN.md section 4): exhaustive TLC on 1-3 small configurations, its behaviours replayed gate by gate, "
               "every recorded gate trace validated by MPBTrace.tla; drift is recorded, verdicts come from Obs.tla on real executions. Trusted: TLC; go1.26 testing/synctest quiescence; the frame tokeniser and the self-delimiting row markers of the "
               "harness; the mapping of recorded findings by rule name. Bounds: programs of 1-4 bars and 1-3 client goroutines, "
               "schedules sampled by a seeded random gate scheduler and by TLC-generated schedules of MPBCore.tla.")
@@ -15,16 +15,21 @@ CHECKS = {
             "schedules are executed on the real library through the verif gate hooks; every execution is judged by the TLA+ monitor "
             "Obs.tla (rule hang: an exact stuck state, or a Wait still pending after a fair drain of K render cycles).", "8 C01"),
     "C02": ("model_checking", "NoPanic on MPBCore.tla; on the real library a panic kills the scenario worker and is attributed to its trace; late "
-            "calls (Add/Write/mutators/getters after Wait) are checked by Obs.tla rules late-add, late-write, final-values-changed.", "8 C02"),
+            "calls (Add/Write/mutators/getters after Wait) are checked by Obs.tla rules late-add, late-write, final-values-changed, wrong-id; "
+            "Api.tla enumerates every place where a nil value is a valid argument (x kind of nil x refresh mode) and each case runs in a process of its own; "
+            "a library goroutine that spins is reported by a real-time watchdog.", "8 C02"),
     "C03": ("model_checking", "Obs.tla rules last-frame-missing, last-frame-has-removed, last-row-not-final, write-after-wait evaluated by TLC on "
-            "recorded executions (final getters after Wait vs the parsed last frame).", "8 C03"),
+            "recorded executions (final getters after Wait vs the parsed last frame); decoration-does-not-match-state, finished-bar-not-retired, "
+            "row-group-incomplete on every frame; families with a user wait group, manual refresh, frames as high as the row limit.", "8 C03"),
     "C05": ("model_checking", "Obs.tla rules dup-in-frame, reappears, missing (ret(Add) < cycle start), unknown-bar, notifier-list on every frame "
-            "of every recorded execution.", "8 C05"),
+            "of every recorded execution; render-request-ignored (requests vs cycles, also under a render delay), detached-push-with-room-in-the-queue "
+            "(130+ bars with a long queue).", "8 C05"),
     "C06": ("model_checking", "Obs.tla keeps the promised priority of every bar (default = creation order, immediate and lazy changes, hand-over to "
             "a queued successor) and checks every stored frame's order, with the one-frame exemption after a lazy change.", "8 C06"),
     "C07": ("model_checking", "Fill.tla (the bar filler as a step machine over component widths; termination as a liveness property, exact body "
             "width and never-too-wide as invariants) and Row.tla (decorator layout, cut with ellipsis, spacing) are model-checked by TLC; every "
-            "terminated call / layout TLC enumerates is replayed on the real fillers (2 palettes x 2 directions, spinner) and on one-frame containers.", "8 C07"),
+            "terminated call / layout TLC enumerates is replayed on the real fillers (2 palettes x 2 directions, spinner with frames of different widths, "
+            "history-independence of the bar filler) and on one-frame containers; narrow containers (width 1-32) under the gate scheduler.", "8 C07"),
     "C08": ("model_checking", "FillArith.tla: monotone, bounded, nearest-cell and end-point clauses checked by TLC over a grid; its table is replayed "
             "on the real filler at scales up to MaxInt64; random int64 triples are judged by exact integer arithmetic; refill clauses via Fill.tla rows.", "8 C08"),
     "C09": ("model_checking", "BarState.tla (one action per mutator, phases live/term/exited) is model-checked by TLC (invariants and action "
@@ -32,13 +37,14 @@ CHECKS = {
             "sample) is replayed on a real bar as path+edge, the getters after every call being explained by a subset construction over the relation.", "8 C09"),
     "C10": ("model_checking", "free-running histories (2-4 client goroutines on one bar while it is rendered, completes and exits) are checked "
             "for linearizability against BarState by TLC (BarLin.tla searches linearization points; the bar's exit is a silent step); "
-            "the same programs run under the Go race detector, a report with library frames is a violation.", "8 C10"),
+            "the same programs (plus queued bars, average decorators adjusted while frames are drawn, several moving-average decorators) run under the Go race "
+            "detector, a report with library frames is a violation; ten containers at work at once under the race detector.", "8 C10"),
     "C11": ("model_checking", "BarState.tla invariants (exclusive, stable) by TLC; on real executions Obs.tla rules completed-and-aborted, "
             "completed-unstable, aborted-unstable, row-completed-and-aborted, row-terminal-state-changed, not-exactly-one-terminal-state.", "8 C11"),
     "C12": ("model_checking", "Obs.tla rules column-width (all widths handed back in one column equal the maximum needed), plain-width, "
             "row-misaligned (text offsets) on every frame; probe decorators vary their needs per frame.", "8 C12"),
     "C13": ("model_checking", "Obs.tla rules text-lost, text-duplicated, rejected-text-emitted, text-out-of-order, late-write, short-write, "
-            "malformed-frame (text below a bar row).", "8 C13"),
+            "malformed-frame (text below a bar row), text-bytes-altered (lines written in two calls, repeated lines, empty writes).", "8 C13"),
     "C14": ("model_checking", "cancel / Shutdown placed at every position of random programs; Obs.tla rules listener-count, listener-after-wait, "
             "notifier-count, running-after-done, hang.", "8 C14"),
     "C15": ("fault_enumeration", "fault at the k-th Fill / extender call / output Write of random programs with synchronised decorators on the other "
@@ -52,12 +58,14 @@ CHECKS = {
             "compared (results, forwarded Close, offered fast path, Bar.Current, samples seen by a recording moving average).", "8 C19"),
     "C20": ("model_checking", "Decor.tla: the EwmaUpdate accumulator with the conservation invariant (time received = time accounted + carried), "
             "unit selection for symbolic byte counts, the h/m/s split and exact percentages, checked by TLC; every terminal case is executed on "
-            "the real decorators (samples through a real bar and 0/1/3 wrappers into a recording moving average; printed numbers parsed back and "
+            "the real decorators; the median window and the exponentially weighted average (exact fractions, IsAnAverage) replayed on NewMedian / EwmaETA / EwmaSpeed "
+            "(samples through a real bar and 0/1/3 wrappers into a recording moving average; printed numbers parsed back and "
             "compared in exact arithmetic; NaN/Inf/panic and reported-width mismatches are violations; freeze after completion on a fake clock).", "8 C20"),
     "C04": ("model_checking", "TermDesign.tla: every short sequence of frames (bars added/removed/popped, extender rows, text, more rows than the "
             "terminal is high) produced by the flush/cwriter protocol on a VT100-subset terminal with scrollback; invariant InPlace (everything "
             "reachable on the terminal = persisted lines ++ current rows).  TermTrace.tla runs the frames of real executions (buffer; real pty "
-            "of height 2-5) through the same emulator.  Obs.tla rules output-before-delay-end, output-without-refresh, row-too-wide.", "8 C04"),
+            "of height 2-5) through the same emulator.  Obs.tla rules output-before-delay-end, output-without-refresh, row-too-wide, row-group-incomplete.  "
+            "Ten containers at work at once: each one's frames obey the protocol on their own.", "8 C04"),
 }
 
 TECH0 = {p: "TLA+ trace validation (TLC on Obs.tla) of gate-scheduled executions of the real library; MPBCore.tla model checking"
